@@ -5,11 +5,14 @@ import MioModel.Varint
 import MioModel.Decoder
 import MioModel.RemoteAddr
 import MioModel.ResourceId
+import MioModel.EventQueue
 import MioModel.AsFound.Decoder
 import MioModel.Lemmas.Varint
 import MioModel.Lemmas.Decoder
 import MioModel.Lemmas.ResourceId
+import MioModel.Lemmas.EventQueue
 import MioModel.Props.C02
+import MioModel.Props.C07
 import MioModel.Props.C14
 import MioModel.Props.C17
 import MioModel.Props.C19
